@@ -42,6 +42,12 @@ pub(in crate::layer) fn read_layer<M: DeserializeOwned, P: AsRef<Path>>(
     // are removed from the file if it's restored. To normalize, we write an empty file if the layer
     // directory exists without the metadata file.
     if !layer_toml_path.exists() {
+        // A dangling symlink in place of the file counts as a missing file too. It must not be
+        // written through, since that would create its target outside of the layers directory.
+        if layer_toml_path.is_symlink() {
+            fs::remove_file(&layer_toml_path)?;
+        }
+
         fs::write(&layer_toml_path, "")?;
     }
 
